@@ -570,7 +570,8 @@ impl<E: Elem> Interp<E> {
                 drop(p);
                 let has = {
                     let _b = crate::events::Bypass::new();
-                    msg.contains(&format!("expected {} items", n))
+                    // (2 000 000 000 is the trace's code for the unallocatable length 2^50)
+                    msg.contains(&format!("expected {} items", if n == 2_000_000_000 { 1i64 << 50 } else { n }))
                 };
                 ev!("\"ev\":\"unwound\",\"obs\":{},\"msg\":{},\"has_expected_msg\":{}", obs, jstr(&msg), has);
             }
@@ -1054,6 +1055,18 @@ fn exec<E: Elem>(op: &str, vals: &mut Vec<Val<E>>, forms: &[String], arg: i64, m
             let src = ScriptedIter::<E> { script, pos: 0, hint, _p: std::marker::PhantomData };
             let mut o = Outcome::new();
             drop(_pre);
+            if n == 2_000_000_000 {
+                // a length no allocation can hold (2^50 elements; the trace carries the code 2 000 000 000): a source whose
+                // hint rules it out must be refused before anything is allocated - the heap forms only (the stack
+                // form of such a type cannot exist)
+                type Huge = generic_array::typenum::U1125899906842624;
+                match op {
+                    "try_boxed_from_iter" => match GenericArray::<E, Huge>::try_boxed_from_iter(src) { Ok(_) => panic!("HARNESS: built 2^50 elements"), Err(_) => o.err = true },
+                    "boxed_from_iter" => { let _b: Box<GenericArray<E, Huge>> = src.collect(); panic!("HARNESS: built 2^50 elements") }
+                    _ => bad(),
+                }
+                return o;
+            }
             match op {
                 "try_from_iter" => with_len!(n, N => match GenericArray::<E, N>::try_from_iter(src) { Ok(a) => o.outs.push(a.wrap()), Err(_) => o.err = true }, bad()),
                 "from_iter" => with_len!(n, N => o.outs.push(src.collect::<GenericArray<E, N>>().wrap()), bad()),
